@@ -203,8 +203,12 @@ def streams(pid, tier, seed):
     elif pid == "C03":
         add("mixed", mixed_stream(seed, 15000 if q else 200000)[0])
     elif pid == "C04":
-        add("redeliver", redeliver_stream(seed, 20000 if q else 300000))
-        add("mixed", mixed_stream(seed + 1, 15000 if q else 300000)[0])
+        add("redeliver", redeliver_stream(seed, 15000 if q else 300000))
+        add("mixed", mixed_stream(seed + 1, 12000 if q else 300000)[0])
+        # few cells, end-of-text markers, rejected blocks and A/B toggles: the corner where a buffer is emptied
+        # or rewritten without any accepted character (seeded change C04-b was missed without this stream)
+        add("rtfew", text_stream(seed + 2, 12000 if q else 300000, texts=(2,), few_cells=True, toggles=True))
+        add("textfew", text_stream(seed + 3, 8000 if q else 200000, few_cells=True, toggles=True))
     elif pid == "C05":
         add("wild", c05_stream(seed, 20000 if q else 300000))
         add("wildN", c05_stream(seed + 1, 8000 if q else 100000), "nh")
